@@ -174,6 +174,115 @@ def interrupt_during_git_probe(chk):
         _sh.rmtree(os.path.dirname(root), ignore_errors=True)
 
 
+def _alive(pid):
+    try:
+        return open("/proc/%d/stat" % pid).read().split()[2] != "Z"
+    except (OSError, IndexError):
+        return False
+
+
+def no_process_survives_an_abort(chk):
+    """"an interrupt stops all running tasks": after `cond run` has reported the abort and exited, no process of any task
+    is left -- (A) a task with helpers started in the background (`server & client; wait`: a non-interactive bash starts
+    every `cmd &` with SIGINT ignored, so they only die of the SIGTERM Conductor promises), interrupted by SIGINT and by
+    SIGTERM; (B) a task whose process is forked while the abort is deferred -- the signal arrives after the launch block
+    was entered and just before the fork (a wrapper around the standard library's subprocess.Popen signals the process
+    itself; nothing of Conductor is patched): it must start with default signal dispositions and die of the sweep.
+    (Seed C16/l: tasks were sent the signal Conductor had received; seed C16/k: the handler set SIGINT / SIGTERM to
+    "ignore", which the task forked in the deferred window inherited.)"""
+    driver = ("import os, signal, subprocess, sys\n"
+              "nth, sig = int(sys.argv[1]), int(sys.argv[2])\n"
+              "real = subprocess.Popen\n"
+              "count = [0]\n"
+              "class P(real):\n"
+              "    def __init__(self, *a, **k):\n"
+              "        if k.get('shell'):\n"
+              "            count[0] += 1\n"
+              "            if count[0] == nth:\n"
+              "                os.kill(os.getpid(), sig)\n"
+              "        super().__init__(*a, **k)\n"
+              "subprocess.Popen = P\n"
+              "sys.argv = ['cond'] + sys.argv[3:]\n"
+              "import conductor.__main__ as m\n"
+              "m.main()\n")
+    bg = "sleep 300 & echo $! > $COND_OUT/h1; sleep 300 & echo $! > $COND_OUT/h2; echo $$ > $COND_OUT/pid; wait"
+    fg = "echo $$ > $COND_OUT/pid; exec sleep 300"
+    cases = []
+    for sig in (signal.SIGINT, signal.SIGTERM):
+        cases.append(("A", sig, 'run_command(name="srv", run="%s")\n' % bg, ["run", "//:srv"], None, ("pid", "h1", "h2")))
+        cases.append(("A2", sig, 'run_experiment(name="x", run="%s", parallelizable=True)\nrun_experiment(name="y", run="%s", parallelizable=True)\ngroup(name="srv", deps=[":x", ":y"])\n' % (bg, fg),
+                      ["run", "//:srv", "-j", "2"], None, ("pid", "h1", "h2")))
+        cases.append(("B", sig, 'run_command(name="one", run="%s", parallelizable=True)\nrun_command(name="two", run="%s", parallelizable=True)\ngroup(name="srv", deps=[":one", ":two"])\n' % (fg, fg),
+                      ["run", "//:srv", "-j", "2"], 2, ("pid",)))
+        cases.append(("B1", sig, 'run_experiment(name="srv", run="%s")\n' % fg, ["run", "//:srv"], 1, ("pid",)))
+    for kind, sig, cond, argv, nth, names in cases:
+        root = implrun.make_project({"COND": cond})
+        env = dict(os.environ, PYTHONPATH=SRC)
+
+        def dispositions():
+            for s_ in (signal.SIGINT, signal.SIGTERM):
+                signal.signal(s_, signal.SIG_DFL)
+
+        if nth is None:
+            p = subprocess.Popen([PY, "-m", "conductor"] + argv, cwd=root, env=env, stdout=subprocess.PIPE, stderr=subprocess.PIPE, preexec_fn=dispositions)
+        else:
+            drv = os.path.join(os.path.dirname(root), "driver.py")
+            open(drv, "w").write(driver)
+            p = subprocess.Popen([PY, drv, str(nth), str(int(sig))] + argv, cwd=root, env=env, stdout=subprocess.PIPE, stderr=subprocess.PIPE, preexec_fn=dispositions)
+
+        def pids():
+            out = {}
+            for dp, _dn, fn in os.walk(os.path.join(root, "cond-out")):
+                for n in names:
+                    if n in fn:
+                        try:
+                            out[os.path.join(os.path.relpath(dp, root), n)] = int(open(os.path.join(dp, n)).read().strip())
+                        except ValueError:
+                            pass
+            return out
+
+        if nth is None:
+            want = len(names) if kind == "A" else len(names) + 1
+            deadline = time.time() + 20
+            while time.time() < deadline and len(pids()) < want:
+                time.sleep(0.05)
+            time.sleep(0.2)
+            p.send_signal(sig)
+        try:
+            out, err = p.communicate(timeout=30)
+        except subprocess.TimeoutExpired:
+            p.kill()
+            out, err = p.communicate()
+            err += b"(cond did not end within 30 s)"
+        time.sleep(0.4)
+        found = pids()
+        alive = {k: v for k, v in found.items() if _alive(v)}
+        for v in found.values():
+            for f_ in (os.killpg, os.kill):
+                try:
+                    f_(v, signal.SIGKILL)
+                except OSError:
+                    pass
+        text = (out + err).decode("utf-8", "replace")
+        chk.coverage["evaluations"] += 1
+        chk.count("real", "survivors %s %s" % (kind, signal.Signals(sig).name))
+        problems = []
+        if nth is None and not found:
+            problems.append("harness: the task did not start (%s)" % text[-200:])
+        if alive:
+            problems.append("processes of the interrupted task are still running after cond exited: %r" % alive)
+        if p.returncode in (0, None) or not implrun.abort_reported(text):
+            problems.append("cond exited %s with output %r instead of reporting an abort" % (p.returncode, text[-300:]))
+        what = {"A": "a task with background helpers", "A2": "two parallel experiments, one with background helpers", "B": "the signal arrives while the second task is being started (deferred abort)",
+                "B1": "the signal arrives while the only task is being started (deferred abort)"}[kind]
+        for msg in problems[:2]:
+            chk.violation("impl-violation", "real %s, %s: %s" % (signal.Signals(sig).name, what, msg),
+                          {"input": {"part": "survivors", "kind": kind, "signal": int(sig), "cond": cond, "argv": argv}, "impl_observation": {"exit": p.returncode, "output": text[-600:], "alive": alive}},
+                          match_key={"point": "survivors"}, size=3)
+        if not problems:
+            chk.coverage["traces_validated_against_impl"] += 1
+
+
 def real_interrupts(chk, n):
     """real `cond run` processes with sleeping children, interrupted by a real signal.  Shapes: (0) three parallel
     experiments in flight; (1) a chain -- the signal arrives while the SECOND task runs, i.e. after an earlier task
@@ -348,6 +457,7 @@ def run(tier, seed, replay=None):
                             "layer; quick: a stride plus random sample of k, thorough: every k; plus the end of Popen() (D35, the former known finding D7') and real interrupted `cond run -j3` "
                             "processes with sleeping children; distinct_nontrivial = distinct (file, function, line) program points at which a signal was injected" % len(cases))
     real_interrupts(chk, 3 if tier == "quick" else 18)
+    no_process_survives_an_abort(chk)
     interrupt_while_loading(chk)
     interrupt_during_git_probe(chk)
     if tier == "thorough":
